@@ -84,7 +84,7 @@ func mkScenario(seed int64, idx int, socket bool) scenario {
 	sc.Conc = idx >= 700000
 	basePort := 8000
 	if socket {
-		basePort = 21000 + (idx%400)*4
+		basePort = 6000 + (idx%400)*4 // (below the ranges other checks draw real ports from; see freeShift)
 	}
 	np := r.Range(1, 3)
 	for i := 0; i < np; i++ {
@@ -154,6 +154,47 @@ func mkScenario(seed int64, idx int, socket bool) scenario {
 		sc.Probes = append(sc.Probes, p)
 	}
 	return sc
+}
+
+// freeShift returns an offset (0, 1000, 2000) under which every port the scenario mentions can be bound on the
+// loopback addresses right now, or -1.
+func freeShift(sc scenario) int {
+	for _, shift := range []int{0, 1000, 2000} {
+		free := true
+		seen := map[string]bool{}
+		try := func(network string, port int) {
+			key := fmt.Sprintf("%s/%d", network, port)
+			if seen[key] || !free {
+				return
+			}
+			seen[key] = true
+			if network == "tcp" {
+				l, err := net.Listen("tcp", fmt.Sprintf(":%d", port))
+				if err != nil {
+					free = false
+					return
+				}
+				l.Close()
+			} else {
+				l, err := net.ListenPacket("udp", fmt.Sprintf(":%d", port))
+				if err != nil {
+					free = false
+					return
+				}
+				l.Close()
+			}
+		}
+		for _, e := range sc.Ports {
+			try(e.Net, e.Port+shift)
+		}
+		for _, pr := range sc.Probes {
+			try(pr.Net, pr.Port+shift)
+		}
+		if free {
+			return shift
+		}
+	}
+	return -1
 }
 
 func config(sc scenario) string {
@@ -271,12 +312,12 @@ func admissible(sc scenario, p probe, firsts [][]byte) map[string]bool {
 // ---- child ---------------------------------------------------------------------
 
 type probeObs struct {
-	I      int      `json:"i"`
+	I      int       `json:"i"`
 	Calls  []callObs `json:"calls"`
-	Closed bool     `json:"closed"`
-	Err    string   `json:"err,omitempty"`
-	Burst  bool     `json:"burst,omitempty"` // sent together with the scenario's other datagrams, not on its own
-	Early  bool     `json:"invoked_before_first_byte,omitempty"`
+	Closed bool      `json:"closed"`
+	Err    string    `json:"err,omitempty"`
+	Burst  bool      `json:"burst,omitempty"` // sent together with the scenario's other datagrams, not on its own
+	Early  bool      `json:"invoked_before_first_byte,omitempty"`
 }
 type callObs struct {
 	Stub string `json:"stub"`
@@ -321,6 +362,23 @@ func (prop) Child(b core.Batch, o *core.Obs) {
 	for k := b.From; k < to; k++ {
 		sc := mkScenario(b.Seed, p.Offset+k, p.Socket)
 		o.Begin(k)
+		if p.Socket {
+			// real ports: another run of this check on the same machine uses the same numbers. Move the whole
+			// scenario (entries and probes alike; only equality of port numbers matters to it) to a block of
+			// ports that is free right now
+			shift := freeShift(sc)
+			if shift < 0 {
+				o.Emit(core.Rec{T: "starterr", S: "no free block of loopback ports for the scenario"})
+				o.End(k)
+				continue
+			}
+			for i := range sc.Ports {
+				sc.Ports[i].Port += shift
+			}
+			for i := range sc.Probes {
+				sc.Probes[i].Port += shift
+			}
+		}
 		srv, err := lab.StartWith(config(sc), !p.Socket)
 		if err != nil {
 			o.Emit(core.Rec{T: "starterr", S: err.Error()})
